@@ -38,6 +38,15 @@ if _cfg.get("importfail"):
     sys.meta_path.insert(0, _Fail())
 if _cfg.get("ipython"):
     builtins.get_ipython = lambda: object()
+if _cfg.get("prehook"):
+    # the application's own sys.excepthook, installed before the library chains to it
+    def _apphook(tp, ex, tb, _kind=_cfg["prehook"]):
+        sys.stderr.write("application hook: %s\n" % tp.__name__)
+        if _kind == "status":
+            raise SystemExit(3)             # crashes get a status of their own
+        if _kind == "broken":
+            raise OSError("cannot write the crash log")
+    sys.excepthook = _apphook
 for _m in _cfg.get("preimport", []):
     try:
         __import__(_m)
